@@ -2,6 +2,12 @@
 and the signature function that labels a failing case for known_findings.jsonl."""
 
 PROPS = {
+    'C10': {
+        'families': [('c10', 40, 400)],
+        'rule': 'generated valid CARv1 x: WrapV1 (both codecs, StoreIdentityCIDs on/off) output compared byte-for-byte; ExtractV1File over {the wrapped file, a hand-laid index-less CARv2 with data padding, a writer-produced CARv2 with data and index padding} x destination {absent, larger pre-existing file, the same path (in place)} on real files; ReplaceRootsInFile with replacement root lists of equal and different encoded size on CARv1 and CARv2 files, file bytes before/after; distinct = distinct script text',
+        'trusted': ['io.CopyN / copy_file_range as a chunked read-then-write loop (any chunking is covered by the theorem)'],
+        'assumptions': [],
+    },
     'C16': {
         'families': [('c16', 100, 1000)],
         'rule': 'sessions of Put/Has/Get/Finalize on blockstore.ReadWrite (real file, faults injected through the verif write hook) and storage.StorageCar (in-memory file whose WriteAt fails on demand), where one write call of a Put (length prefix, CID or data) or of Finalize (any of its index/header writes) returns an error after 0, a quarter, half, three quarters or all of its bytes; followed by a random continuation, a clean Finalize, the file bytes and the real Inspect(true)/VerifyCar verdicts; distinct = distinct script text',
@@ -104,6 +110,8 @@ def signature(pid, script, I, S):
         if 'fail' in toks:
             return 'C16/' + fam + '-with-failed-write-misreported'
         return 'C16/' + fam + '-after-failed-write-differs'
+    if pid == 'C10':
+        return 'C10/' + toks.get('op', '?') + '-' + toks.get('dst', '') + '-output-differs'
     if pid == 'C20':
         return 'C20/' + fam + '-differs-from-lazy-direct-writer'
     if pid == 'C06':
